@@ -143,6 +143,10 @@ def check(model, rep):
                 'for all n >= 2, iterate in an order compatible with the dependence, and no event may read or overwrite a '
                 'kinematic attribute in a way that makes a recorded value stale (generic no-stale-read rule with the uniform '
                 'zero clamp as the only allowed late writer). Decides the code shape, not numeric trajectories.')
+    # "at every recorded instant", after any history: Powertrain.reset must hand every variable its own fresh list and restore the
+    # attributes from their own first samples (C12's reset rule) - else a rerun records into lists that are no longer one per variable
+    from checks.c12 import check_reset as _check_reset
+    _check_reset(model, rep, R='C01.recorded.reset')
     # rules that do not need the solver IR first: they report even when the IR cannot be built
     check_recorder(model, rep)
     from sa.forwarding import check_forwarding
